@@ -57,8 +57,8 @@ def slices(tier):
     ]
     if not q:
         out += [
-            Slice("d-expr-d", [F, G, U], D2 | E, 4, idx=(10,), lits=[LIT["two"]], jets=J2, levels=[D2, {"mul", "add", "index", "dot", "inner", "div"}, D2, FIN], mikinds=("name", "fixed"), **kw),
-            Slice("d-of-expr2", [F, G, U], D2 | E, 4, idx=(10,), lits=[LIT["two"]], jets=J2, levels=[E, E, D2, FIN], mikinds=("name", "fixed"), **kw),
+            Slice("d-expr-d", [F, G, U], D2 | E, 4, idx=(10,), lits=[LIT["two"]], jets=J2, levels=[D2, {"mul", "add", "index", "dot", "inner", "div"}, D2, FIN], mikinds=("name", "fixed"), simulate=600, depth=5, **kw),
+            Slice("d-of-expr2", [F, G, U], D2 | E, 4, idx=(10,), lits=[LIT["two"]], jets=J2, levels=[E, {"mul", "add", "div", "index", "dot", "inner", "pow"}, D2, FIN], mikinds=("fixed",), chain=True, simulate=600, depth=5, **kw),
             Slice("d3-of-expr", [F3, P3], {"grad", "div", "curl", "nabla_grad", "dx", "mul", "cross", "dot", "index"}, 3, idx=(10,), maxdim=3, gdim=3, jets=J3, levels=[{"mul", "cross", "dot", "index"}, {"grad", "div", "curl", "nabla_grad", "dx"}, FIN], mikinds=("name", "fixed"), **kw),
         ]
     return out
